@@ -363,6 +363,9 @@ pub struct RunTrace {
     pub unknown_starts: Vec<String>,
     pub exit: Option<ProcExit>,
     pub env_actions_done: usize,
+    /// lines written by FILL steps, and whether one of them stopped at its limit instead of at a full pipe
+    pub filled_lines: u64,
+    pub fill_hit_limit: bool,
     /// the machine never let the monorail process come to rest before a scripted failure
     pub quiesce_failed: bool,
     pub hang: Option<String>,
@@ -927,6 +930,38 @@ pub fn drive_run_l(w: &mut World, actor: &str, sc: &RunScript, hang: Duration, l
                             std::thread::sleep(Duration::from_millis(o.pause_ms as u64));
                         }
                         ctl.tick();
+                        // "~<max>~<hex prefix>" in place of the bytes: the child writes numbered lines without ever
+                        // blocking until its pipe has stayed full for 400 ms (the reader is stuck) or <max> lines are
+                        // out, and reports how many it wrote
+                        let fill: Option<(u64, String)> = o.hex.strip_prefix('~').and_then(|r| r.split_once('~')).and_then(|(m, h)| m.parse().ok().map(|m| (m, h.to_string())));
+                        if let Some((max, h)) = &fill {
+                            ctl.send(conn, &format!("FILL {} {} {}\n", o.fd, h, max));
+                            match ctl.wait_for(|e| matches!(e, Ev::Line{conn: c, ..} if *c == conn) || matches!(e, Ev::Eof{conn: c} if *c == conn), hang) {
+                                Some(Ev::Line { line, .. }) if line.starts_with("ACK") => {
+                                    let n: u64 = line.split_whitespace().nth(1).and_then(|x| x.parse().ok()).unwrap_or(0);
+                                    let prefix = unhex(h);
+                                    let w = &mut tr.helpers[i].written[o.fd as usize];
+                                    for k in 1..=n {
+                                        w.extend_from_slice(&prefix);
+                                        w.extend_from_slice(format!(" {} ", k).as_bytes());
+                                        w.extend_from_slice(&[b'f'; 150]);
+                                        w.push(b'\n');
+                                    }
+                                    tr.log.push(format!("fill {} {} fd{}: the pipe stayed full (or the limit was reached)", tr.helpers[i].command, tr.helpers[i].target, o.fd));
+                                    tr.filled_lines += n;
+                                    tr.fill_hit_limit |= n >= *max;
+                                    tr.outs_acked += 1;
+                                    lfault!(LTrigger::AfterOut { n: tr.outs_acked });
+                                }
+                                Some(Ev::Eof { .. }) => {
+                                    tr.log.push(format!("helper-vanished {} {}", tr.helpers[i].command, tr.helpers[i].target));
+                                    live.retain(|x| *x != i);
+                                    done_instructed += 1;
+                                }
+                                _ => hang!("helper {} {} did not finish filling its pipe", tr.helpers[i].command, tr.helpers[i].target),
+                            }
+                            continue 'outer;
+                        }
                         if o.close {
                             ctl.send(conn, &format!("CLOSE {}\n", o.fd));
                         } else {
